@@ -11,6 +11,8 @@ import (
 // fsEffect classifies a call as a file-system effect. kind: "" (none), "cleanup"
 // (shrinks/removes: Truncate(0), Remove, Close), or "effect" (creates, extends, renames,
 // modifies).
+func FsEffect(info *types.Info, call *ast.CallExpr) (name, kind string) { return fsEffect(info, call) }
+
 func fsEffect(info *types.Info, call *ast.CallExpr) (name, kind string) {
 	name = core.CalleeName(info, call)
 	switch name {
